@@ -82,8 +82,16 @@ class TrajProgram(ProgramBase):
         mode = scn.get("chunk_mode", "mixed")
         self.chunk_mode = mode
         if scn.get("fail") and k.flip("fail_now", 0.5 if scn.get("fail") == "maybe" else 1.0):
-            self.fail_at = (k.choose("fail_frame", self.nframes + 1), 1 + k.choose("fail_code", 3))
+            # positive exit codes and deaths by signal (negative return codes)
+            self.fail_at = (k.choose("fail_frame", self.nframes + 1),
+                            [1, 2, 3, -9, -11, 139][k.choose("fail_code", 6)])
             self.sim.k.fault("program_nonzero_exit")
+        self.early = False
+        if self.fail_at is None and scn.get("early_exit") and k.flip("early_exit", 0.5):
+            # the program ends normally (code 0) before the requested number of steps
+            self.fail_at = (1 + k.choose("early_frames", self.nframes), 0)
+            self.early = True
+            self.sim.k.fault("program_early_exit_0")
         self.linger = k.choose("linger", 3)
         if scn.get("instant") and k.flip("instant", 0.5):
             # the whole run is over before the engine polls for the first time
@@ -164,6 +172,12 @@ class TrajProgram(ProgramBase):
                 self._write_frames(min(limit, done + 1))
         else:
             self._write_frames(limit)
+        # the program may end in the same instant as its last write (no poll in between)
+        if (self.returncode is None and self.linger == 0 and self.frames_on_disk() >= limit
+                and all(w.pos >= (w.frame_ends[limit - 1] if limit else 0) for w in self.writers)
+                and k.flip("exit_with_last_write", 0.5)):
+            self.sim.k.probe("exit_with_last_write")
+            self._finish(self.fail_at[1] if self.fail_at is not None else 0)
 
 
 class ProcSim:
